@@ -728,6 +728,34 @@ def check_len(res, facts):
     (rule.bad if problems else rule.ok)(key, "; ".join(problems) if problems else "element bytes = %s, reduced big-endian" % how, h.loc)
 
 
+def check_xof(res, facts):
+    """The XOF form of hash_to_field draws the coefficients of successive elements from ONE reader: each call has to consume
+    exactly m * L bytes (L per base-prime-field coefficient), otherwise the next element drawn from the same reader is not
+    the reduction of the next L bytes of the stream."""
+    rule = res.rule("R-XOF", "hash_to_field over an XofReader consumes exactly L = get_len_per_elem bytes per coefficient (m*L per element): the view handed to read() is not rounded or padded", 0)
+    allf = [f for f in facts.fns(unit="ws", crate="ark_ff") if f.id.startswith("ark_ff::fields::field_hashers::hash_to_field")]
+    parent = [f for f in allf if f.kind != "Closure" and f.id == "ark_ff::fields::field_hashers::hash_to_field"]
+    key = "ark_ff|field_hashers::hash_to_field(XofReader)"
+    if not parent:
+        rule.bad(key, "anchor missing")
+        return
+    fn = parent[0]
+    reads = [(g, t) for g in allf for _, t in g.calls() if t["f"].get("name") in ("read", "read_exact")]
+    views = [DF.show(DF.expr(fn, t["args"][1])) for _, t in fn.calls() if t["f"].get("name") in ("index_mut", "get_mut", "split_at_mut") and len(t["args"]) > 1]
+    if not reads:
+        rule.bad(key, "no read() from the XOF reader", fn.loc)
+        return
+    rounding = ("next_multiple_of", "div_ceil", "next_power_of_two", "Add", "Shl", "BitOr", "max(")
+    badv = [v for v in views if any(r in v for r in rounding)]
+    per_coeff = any(g.kind == "Closure" for g, _ in reads) and "Range{0, get_len_per_elem()}" in views
+    if badv:
+        rule.bad(key, "the buffer view handed to the reader is %s: more than L bytes per coefficient are consumed, so the reader is left advanced past the element and the next element drawn from it is wrong" % badv[0][:120], fn.loc)
+    elif per_coeff:
+        rule.ok(key, "read(&mut buf[0..L]) once per coefficient", fn.loc)
+    else:
+        rule.noverdict(key, "reader access has a shape the rule does not model (views %s)" % [v[:60] for v in views][:3], fn.loc)
+
+
 def check_sgn0(res, facts):
     """sgn0 (RFC 9380 4.1): the low bit of the first non-zero base-prime-field coordinate, false for zero.  The
     coordinates are touched only through is_zero and the parity of their standard integer, so the result is a function
@@ -824,6 +852,7 @@ def run(ctx, res):
     check_xmd(res, facts)
     check_zpad(res, facts)
     check_len(res, facts)
+    check_xof(res, facts)
     check_sgn0(res, facts)
     check_cleared(res, facts)
     check_maps(res, facts)
